@@ -567,6 +567,10 @@ func TestVerifConfig(t *testing.T) {
 				}
 				add(vSetting{key: "experimental_remote_asset_api", typ: 'b', b: true})
 				badClass = "remote_asset_needs_grpc"
+			case 6: // a malformed gRPC listener next to an HTTP listener that is not a TCP port
+				set("http_address", []string{"unix:///tmp/http.sock", "unix:///run/br/http.sock"}[rng.Intn(2)])
+				set("grpc_address", []string{"localhost", "9092", "[::1", "host:1:2", "grpc.sock", "unix://"}[rng.Intn(6)])
+				badClass = "bad:grpc_address"
 			default:
 				p := cands[rng.Intn(len(cands))]
 				v, _ := vPick(rng, p, true)
